@@ -464,10 +464,10 @@ func c09(c *core.Ctx) {
 		k.Count("short_read_sources", 1)
 		k.Distinct(fmt.Sprintf("short|%d", 1+k.Index%7))
 	})
-	c.Family("random-source-faults", c.N(24, 600), func(k *core.Case) {
+	c.Family("random-source-faults", c.N(27, 600), func(k *core.Case) {
 		mode := k.Index % 3
 		for failAt := 0; failAt < 6; failAt++ {
-			f := &mon.Faulty{Src: mon.RealRand(), FailAt: failAt, Mode: mode}
+			f := &mon.Faulty{Src: mon.RealRand(), FailAt: failAt, Mode: mode, Err: mon.FaultErrors[k.Index/3%len(mon.FaultErrors)]}
 			var x *big.Int
 			var err error
 			k.Eval(1)
@@ -488,7 +488,7 @@ func c09(c *core.Ctx) {
 				return
 			}
 			// the same through NewIKESAKey: error, nil key, nil public value
-			f2 := &mon.Faulty{Src: mon.RealRand(), FailAt: failAt, Mode: mode}
+			f2 := &mon.Faulty{Src: mon.RealRand(), FailAt: failAt, Mode: mode, Err: mon.FaultErrors[k.Index/3%len(mon.FaultErrors)]}
 			ini := newInfoKey(k.Index%3, k.Index/3%3, k.Index/9%3, k.Index%2)
 			prop, _ := ini.ToProposal()
 			peerPub := ini.DhInfo.GetPublicValue(big.NewInt(12345))
@@ -734,18 +734,18 @@ func c10(c *core.Ctx) {
 		}
 		k.Distinct(fmt.Sprintf("iv|%d|%d", kl, k.Index/3%4))
 	})
-	c.Family("random-source-faults", c.N(30, 900), func(k *core.Case) {
+	c.Family("random-source-faults", c.N(81, 1800), func(k *core.Case) {
 		kl := []int{16, 24, 32}[k.Index%3]
 		mode := k.Index / 3 % 3
 		ci, _ := newCipher(kl, k.R.Bytes(kl))
 		pt := k.R.Bytes(k.R.Intn(80))
 		for failAt := 0; failAt < 5; failAt++ {
-			f := &mon.Faulty{Src: mon.RealRand(), FailAt: failAt, Mode: mode}
+			f := &mon.Faulty{Src: mon.RealRand(), FailAt: failAt, Mode: mode, Err: mon.FaultErrors[k.Index/9%len(mon.FaultErrors)]}
 			var ct []byte
 			var err error
 			k.Eval(1)
 			pn := core.Try(func() { mon.WithRand(f, func() { ct, err = ci.Encrypt(append([]byte{}, pt...)) }) })
-			w := M{"fail_at_read": failAt, "mode": mode, "plaintext_len": len(pt)}
+			w := M{"fail_at_read": failAt, "mode": mode, "plaintext_len": len(pt), "error_reported_by_the_source": f.Err.Error()}
 			if pn != nil {
 				k.Violate("panic", "Encrypt-fault: "+pn.Sig(), "panic", panicData(pn, w))
 				return
